@@ -67,6 +67,19 @@ def tasks(tier):
             cfg2 = dict(cfg, alphabet=["ok", "x:T", "x:P"], faults=[(site, idx, "KeyError")],
                         attempt_hooks="call")
             out.append({"family": "records-faults", "cfg": cfg2, "entry": e, "bound": 0, "ncalls": 1})
+    # policy.circuit_breaker is re-assigned (detached / swapped) during the call: the breaker that
+    # admitted the call still gets exactly its one record
+    for e, thr in itertools.product(WITH_RETRY[:4] + NO_RETRY, [1, 3]):
+        cfg = dict(M=2 if e in WITH_RETRY else 1, alphabet=["ok", "x:T", "x:P"] + (["r:T"] if e in WITH_RETRY else []),
+                   max_unknown=None, repoint=True,
+                   breaker={"threshold": thr, "window": 8, "recovery": 2, "trip_on": ["T", "U", "P"]})
+        out.append({"family": "records-repointed", "cfg": cfg, "entry": e, "bound": 1, "ncalls": 1})
+    # the sleep handler takes time, so the deadline can pass while it decides
+    for e in WITH_RETRY[:4]:
+        cfg = dict(M=3, alphabet=["ok", "x:T", "r:T"], handler="call", handler_durs=[0, 2, 4],
+                   deadline=3, durs=[0, 1], max_unknown=None, strat_menu=[1],
+                   breaker={"threshold": 1, "window": 8, "recovery": 2, "trip_on": ["T", "U", "P"]})
+        out.append({"family": "records-slow-handler", "cfg": cfg, "entry": e, "bound": 2, "ncalls": 1})
     # the final failure is a rejected None result
     for e, thr in itertools.product(WITH_RETRY, [1, 3]):
         cfg = dict(M=2, alphabet=["ok", "rn:T", "rn:P", "x:U", "r:T"], force_rc=True, max_unknown=None,
